@@ -21,9 +21,14 @@ package internal
 //@    (typeis(c.Data, *conformancev1.MessageContents_Text) && unbox(c.Data, *conformancev1.MessageContents_Text) != nil) ||
 //@    (typeis(c.Data, *conformancev1.MessageContents_BinaryMessage) && unbox(c.Data, *conformancev1.MessageContents_BinaryMessage) != nil && unbox(c.Data, *conformancev1.MessageContents_BinaryMessage).BinaryMessage != nil)
 
+// rawErr[0]: the result of the last body-encoder call (callers discard it; the ghost lets
+// their contracts say "if encoding succeeded")
+//@ ghost rawErr: int -> error
+
 //@ func WriteRawMessageContents
 //@   requires knownData(contents) && writer != nil
-//@   modifies wrOut, bufContent, cmpDst, cmpBuf, cmpBase, cmpBaseB
+//@   modifies wrOut, bufContent, cmpDst, cmpBuf, cmpBase, cmpBaseB, rawErr
+//@   assume_ensures rawErr[0] == result
 //@   ensures @wire result == nil ==> wrOut[writer] == old(wrOut[writer]) + msgWire(contents)
 //@   ensures @buffer result == nil && typeis(writer, *bytes.Buffer) ==> bufContent[unbox(writer, *bytes.Buffer)] == old(bufContent[unbox(writer, *bytes.Buffer)]) + msgWire(contents)
 //@   ensures @others forall w io.Writer :: w != writer ==> wrOut[w] == old(wrOut[w])
@@ -45,7 +50,9 @@ package internal
 //@ func WriteRawStreamContents
 //@   option strassoc
 //@   requires contents != nil && writer != nil && wfItems(contents.Items)
-//@   modifies wrOut, bufContent, cmpDst, cmpBuf, cmpBase, cmpBaseB
+//@   modifies wrOut, bufContent, cmpDst, cmpBuf, cmpBase, cmpBaseB, rawErr
+//@   assume_ensures rawErr[0] == result
+//@   ensures @others forall w io.Writer :: w != writer ==> wrOut[w] == old(wrOut[w])
 //@   ensures @wire result == nil ==> streq(wrOut[writer], old(wrOut[writer]) + old(streamWire(contents.Items, len(contents.Items))))
 //@   ensures @flags result == nil ==> forall k int :: 0 <= k && k < len(contents.Items) ==> contents.Items[k].Flags <= 255
 //@   assert_at "_, err := writer.Write(prefix[:])"#1: streq(bytes(prefix[:]), prefixStr(item.Flags, *item.Length))
@@ -57,3 +64,4 @@ package internal
 //@   assert_at "if err != nil {"#2: err == nil ==> wrOut[writer] == atpre(wrOut[writer]) + atpre(streamWire(contents.Items, i)) + (prefixStr(item.Flags, len(msgWire(item.Payload))) + msgWire(item.Payload))
 //@   loop 0: invariant streq(wrOut[writer], atpre(wrOut[writer]) + atpre(streamWire(contents.Items, rangeindex + 1)))
 //@           invariant forall k int :: 0 <= k && k <= rangeindex ==> contents.Items[k].Flags <= 255
+//@           invariant forall w io.Writer :: w != writer ==> wrOut[w] == atpre(wrOut[w])
